@@ -154,6 +154,8 @@ struct MaxCharsCommandSizeLimiter {
     max_chars: usize,
     /// What every argument costs on top of its characters.
     arg_overhead: usize,
+    /// The longest single argument (terminator included) that can be passed.
+    max_arg_chars: usize,
 }
 
 impl MaxCharsCommandSizeLimiter {
@@ -162,6 +164,7 @@ impl MaxCharsCommandSizeLimiter {
             current_size: 0,
             max_chars,
             arg_overhead: 0,
+            max_arg_chars: usize::MAX,
         }
     }
 
@@ -184,6 +187,9 @@ impl MaxCharsCommandSizeLimiter {
         // against the limit as well (execve(2): "Limits on size of arguments
         // and environment").
         const POINTER_SIZE: usize = std::mem::size_of::<*const std::ffi::c_char>();
+        // ... and refuses any single string longer than 32 pages (MAX_ARG_STRLEN).
+        const MAX_ARG_PAGES: usize = 32;
+        let page_size = unsafe { uucore::libc::sysconf(uucore::libc::_SC_PAGESIZE) } as usize;
         let arg_max = (unsafe { uucore::libc::sysconf(uucore::libc::_SC_ARG_MAX) } as usize)
             .min(KERNEL_ARG_MAX);
 
@@ -198,6 +204,7 @@ impl MaxCharsCommandSizeLimiter {
         // the base command is then reported as too large instead of panicking.
         Self {
             arg_overhead: POINTER_SIZE,
+            max_arg_chars: page_size.saturating_mul(MAX_ARG_PAGES),
             ..Self::new(
                 arg_max
                     .saturating_sub(ARG_HEADROOM)
@@ -213,8 +220,9 @@ impl CommandSizeLimiter for MaxCharsCommandSizeLimiter {
         arg: Argument,
         cursor: LimiterCursor<'_>,
     ) -> Result<Argument, ExhaustedCommandSpace> {
-        let cost = count_osstr_chars_for_exec(&arg.arg).saturating_add(self.arg_overhead);
-        if self.current_size.saturating_add(cost) <= self.max_chars {
+        let chars = count_osstr_chars_for_exec(&arg.arg);
+        let cost = chars.saturating_add(self.arg_overhead);
+        if chars <= self.max_arg_chars && self.current_size.saturating_add(cost) <= self.max_chars {
             let arg = cursor.try_next(arg)?;
             self.current_size += cost;
             Ok(arg)
